@@ -3,11 +3,20 @@ import PyamgV.Model.KGraph
 import PyamgV.Model.RsModel
 import PyamgV.Model.KCljp
 import PyamgV.Proofs.RsPass2
+import PyamgV.Proofs.Checker
+import PyamgV.Proofs.StdAgg5
+import PyamgV.Proofs.NaiveAgg
+import PyamgV.Proofs.Bfs
+import PyamgV.Proofs.CC
+import PyamgV.Proofs.ColoringLoop
+import PyamgV.Proofs.MisParTerm2
 /-! Driver ops for graph / aggregation / splitting kernels (C12, C13, C18, C17). -/
 namespace PyamgV.Drv.Graph
 open PyamgV PyamgV.Drv
 
 def mkG (n ap aj : String) : G.Graph := ⟨nat n, parseNats ap, parseNats aj⟩
+/-- the proof-side graph (`adj` function) of the same CSR arrays -/
+def mkP (n ap aj : String) : PyamgV.Graph := let g := mkG n ap aj; ⟨g.n, g.row⟩
 
 def handle : List String → Option String
   | ["mis_serial", n, ap, aj] =>
@@ -37,6 +46,37 @@ def handle : List String → Option String
     let T : KCljp.Csr := ⟨nat n, parseNats tp, parseNats tj⟩
     let (r, ok) := KCljp.run KCljp.floatOps S T (parseFloats w) (S.n + 1)
     some <| if ok then showInts r else "fuel-exhausted"
+  -- `p_*`: the definitions the theorems of Props/ are stated about, run on the same inputs
+  | ["p_mis_serial", n, ap, aj] =>
+    let g := mkP n ap aj
+    some <| showInts (PyamgV.misSerial g (-1) 1 0 (Array.replicate g.n (-1)))
+  | ["p_mis_par", n, ap, aj, y] =>
+    let g := mkP n ap aj
+    let w := parseInts y
+    some <| showInts (PyamgV.parIter g (-1) 1 0 (fun i => w.getD i 0) g.n (Array.replicate g.n (-1)))
+  | ["p_std_agg", n, ap, aj] =>
+    let (x, y, k) := Agg.standardAggregation (mkP n ap aj)
+    some <| showInts x ++ ";" ++ showInts (y.extract 0 k.toNat) ++ ";" ++ toString k
+  | ["p_naive_agg", n, ap, aj] =>
+    let s := Agg.naive (mkP n ap aj)
+    some <| showInts s.x ++ ";" ++ showInts (s.y.extract 0 (s.next - 1).toNat) ++ ";" ++ toString (s.next - 1)
+  | ["p_bfs", n, ap, aj, seed] =>
+    let g := mkP n ap aj
+    let (l, ok) := Bfs.bfs g (nat seed) (g.n + 1)
+    some <| if ok then showInts l else "fuel-exhausted"
+  | ["p_cc", n, ap, aj] =>
+    let g := mkP n ap aj
+    let (x, _, ok) := CC.cc g g.n
+    some <| if ok then showInts x else "fuel-exhausted"
+  | ["p_color_mis", n, ap, aj] =>
+    let g := mkP n ap aj
+    some <| match Col.vertexColoringMis g (g.n + 1) with
+      | some (x, _) => showInts x
+      | none => "fuel-exhausted"
+  | ["check_mis", n, ap, aj, x] =>
+    -- the proved checker (`Chk.checkMIS_iff`) applied to an output of the real code
+    let g := mkG n ap aj
+    some <| if Chk.checkMIS ⟨g.n, g.row⟩ (parseInts x) then "ok" else "fail"
   | _ => none
 
 end PyamgV.Drv.Graph
